@@ -173,7 +173,7 @@ partial def showV : V → String
   | .null => "z"
   | .str s => "s" ++ (if s.isEmpty then "-" else toHex s.toUTF8.toList)
   | .tuple vs | .listv vs => "l(" ++ ",".intercalate (vs.map showV) ++ ")"      -- the harness prints sequences and mappings alike
-  | .obj its | .mapv its => "o(" ++ ",".intercalate (its.map fun (k, v) => toHex k.toUTF8.toList ++ "=" ++ showV v) ++ ")"
+  | .obj its | .mapv its => "o(" ++ ",".intercalate (its.map fun (k, v) => (if k.isEmpty then "-" else toHex k.toUTF8.toList) ++ "=" ++ showV v) ++ ")"
 
 partial def showE : E → String
   | .num n => s!"N{n}"
